@@ -11,7 +11,7 @@ for d in sorted(glob.glob("/verif/seeded/*")):
     except Exception:
         continue
     tag = os.path.basename(d)
-    rnd = {"A": 1, "B": 1, "C": 2, "D": 2, "E": 3, "F": 3, "G": 4, "H": 4}[tag[-1]]
+    rnd = {"A": 1, "B": 1, "C": 2, "D": 2, "E": 3, "F": 3, "G": 4, "H": 4, "I": 5, "J": 5}[tag[-1]]
     caught = m.get("caught_by") or []
     mechs = []
     for p in caught:
